@@ -5,7 +5,15 @@
 corpora and option combinations and compared with what the Python function
 returns in-process for the same arguments, formatted as documented; the ag
 options are read back from the parameter echo of the program built from the
-tree; the dpseg options from the argv of the stand-in."""
+tree; the dpseg options from the argv of the stand-in (stubs/dpseg writes it
+to DPSEG_STUB_CAPTURE/<hash>.argv).
+
+Dimensions: sep_jobs (-p/-s/-w triples, undefined levels), stdio_jobs (text on
+stdin / result on stdout), option_jobs (baseline -O/-l, dibs -u/-b/-d/no -T,
+syll -f, puddle -j, tp -p), ag_segment_jobs (wordseg-ag against ag.segment on
+the built program, fixed seeds), dpseg_option_jobs (every option of the table,
+zero and white space values included), failure_jobs (scripted failures of the
+stand-ins under wordseg-ag / wordseg-dpseg)."""
 import json
 import os
 import random
@@ -48,9 +56,17 @@ def expect(f):
 
 
 class Job:
-    def __init__(self, name, module, argv, files, expected, outfiles=(), env=None):
+    """One run of `python -m <module>`. '@name' in argv is a file of the scratch directory.
+    stdin: name of the file fed on standard input (it must then not be in argv);
+    stdout: the result is read from standard output (no -o);
+    setup(d) -> extra environment (e.g. writes a stand-in plan into d);
+    capture: the dpseg stand-in records what it receives in d/cap (res['argvs'])."""
+
+    def __init__(self, name, module, argv, files, expected, outfiles=(), env=None, stdin=None, stdout=False, setup=None, capture=False, tag=None):
         self.name, self.module, self.argv, self.files, self.expected, self.outfiles = name, module, argv, files, expected, outfiles
         self.env = env or {}
+        self.stdin, self.stdout, self.setup, self.capture = stdin, stdout, setup, capture
+        self.tag = tag or name
 
     def run(self):
         d = tempfile.mkdtemp(prefix='c17-')
@@ -58,13 +74,40 @@ class Job:
             for fn, content in self.files.items():
                 open(os.path.join(d, fn), 'w', encoding='utf8').write(content)
             argv = [a.replace('@', d + '/') if isinstance(a, str) and a.startswith('@') else a for a in self.argv]
-            r = subprocess.run([PY, '-m', self.module] + argv + ['-o', os.path.join(d, 'out.txt')], capture_output=True, text=True,
-                               env=dict(ENV, **self.env), cwd=d)
-            out = open(os.path.join(d, 'out.txt'), encoding='utf8').read() if os.path.exists(os.path.join(d, 'out.txt')) else None
+            env = dict(ENV, **self.env)
+            if self.setup:
+                env.update(self.setup(d))
+            if self.capture:
+                os.mkdir(os.path.join(d, 'cap'))
+                env['DPSEG_STUB_CAPTURE'] = os.path.join(d, 'cap')
+            cmd = [PY, '-m', self.module] + argv + ([] if self.stdout else ['-o', os.path.join(d, 'out.txt')])
+            if self.stdin:
+                r = subprocess.run(cmd, input=self.files[self.stdin].encode('utf8'), capture_output=True, env=env, cwd=d)
+            else:
+                r = subprocess.run(cmd, stdin=subprocess.DEVNULL, capture_output=True, env=env, cwd=d)
+            err = r.stderr.decode('utf8', 'replace')
+            if self.stdout:
+                out = r.stdout.decode('utf8', 'replace')
+            else:
+                out = open(os.path.join(d, 'out.txt'), encoding='utf8').read() if os.path.exists(os.path.join(d, 'out.txt')) else None
             extra = {f: (open(os.path.join(d, f), encoding='utf8').read() if os.path.exists(os.path.join(d, f)) else None) for f in self.outfiles}
-            return dict(code=r.returncode, out=out, err=r.stderr, extra=extra)
+            res = dict(code=r.returncode, out=out, err=err, extra=extra, dir=d)
+            if self.capture:
+                cap = os.path.join(d, 'cap')
+                res['argvs'] = [json.load(open(os.path.join(cap, f), encoding='utf8')) for f in sorted(os.listdir(cap)) if f.endswith('.argv')]
+            return res
         finally:
             shutil.rmtree(d, ignore_errors=True)
+
+
+def stdio_variant(j, stdin=True, stdout=True):
+    """the same run with the input text on standard input and/or the result on standard output"""
+    argv = [a for a in j.argv if not (stdin and a == '@in.txt')]
+    n = Job(j.name, j.module, argv, j.files, j.expected, j.outfiles, j.env, stdin='in.txt' if stdin else None, stdout=stdout,
+            setup=j.setup, capture=j.capture, tag=j.tag + '/' + '+'.join(x for x, y in (('stdin', stdin), ('stdout', stdout)) if y))
+    if hasattr(j, 'deferred'):
+        n.deferred = j.deferred
+    return n
 
 
 def judge(job, res):
@@ -225,6 +268,557 @@ def build_jobs(ck):
     return jobs
 
 
+# --------------------------------------------------------------------------------------
+#  custom separators (-p/-s/-w), standard streams, per-command options
+# --------------------------------------------------------------------------------------
+
+DEFSEP = (' ', ';esyll', ';eword')
+CSEP = ('_', '=', '/')          # every token followed by its separator (compact)
+NOSYL = ('_', None, '/')        # syllable level undefined: -s ""
+
+
+def separgs(sep):
+    return ['-p', sep[0] or '', '-s', sep[1] or '', '-w', sep[2] or '']
+
+
+def compact_corpus(rng, sep, n=None, phones='ascii'):
+    trees = [sl.rand_tree(rng, sl.PHONES[phones]) for _ in range(n or rng.randint(2, 6))]
+    return trees, [sl.render(t, sep, 'compact') for t in trees]
+
+
+def nl(lines):
+    return [l + '\n' for l in lines]
+
+
+def prep_expected(lines, sep, unit, tol, allow, gold):
+    def f():
+        src = nl(lines)
+        S = Separator(*sep)
+        out = fmt(list(prep_mod.prepare(src, S, unit=unit, tolerant=tol, check_punctuation=not allow)))
+        if not gold:
+            return out
+
+        def ok(l):
+            try:
+                prep_mod.check_utterance(l.strip(), S, check_punctuation=not allow)
+                return True
+            except ValueError:
+                return False
+        kept = [l for l in src if ok(l)] if tol else src
+        return {'out': out, 'gold.txt': fmt(list(prep_mod.gold(kept, separator=S)))}
+    return expect(f)
+
+
+def stats_expected(lines, sep, js):
+    def f():
+        results = CorpusStatistics(nl(lines), Separator(*sep)).describe_all()
+        if js:
+            return json.dumps(results, indent=4) + '\n'
+        return fmt(' '.join((name, k, str(v))) for name, st in results.items() for k, v in st.items())
+    return expect(f)
+
+
+def dibs_expected(train, test, sep, unit, kind, thr, pwb, diph):
+    def f():
+        m = dibs.CorpusSummary(nl(train), separator=Separator(*sep), level=unit)
+        out = fmt(dibs.segment(nl(test), m, type=kind, threshold=thr, pwb=pwb))
+        if not diph:
+            return out
+        items = sorted(m.diphones.items(), key=lambda kv: kv[1], reverse=True)
+        return {'out': out, 'diph.txt': fmt('{} {} {}'.format(v, k[0], k[1]) for k, v in items)}
+    return expect(f)
+
+
+def units_of(tree, unit):
+    if unit == 'phone':
+        return ' '.join(ph for w in tree for s in w for ph in s)
+    return ' '.join(''.join(s) for w in tree for s in w)
+
+
+def sep_jobs(ck):
+    """prep, stats, syll, dibs, baseline -O with a separator triple given on the command line"""
+    rng = ck.rng
+    jobs = []
+    seps = [CSEP, NOSYL] + ([('p', 's', 'w'), ('·', '‖', '§§'), (None, '=', '/'), (';', None, '<w>')] if ck.thorough else [])
+    for rep in range(4 if ck.thorough else 1):
+        for sep in seps:
+            tg = 'sep' + repr(sep)
+            phones = rng.choice(['ascii', 'multi', 'ipa']) if sep[0] else 'ascii'
+            trees, tags = compact_corpus(rng, sep, phones=phones)
+            # ---- prep
+            lines = tags + (['bad line'] if rng.random() < 0.4 else [])
+            rng.shuffle(lines)
+            for unit in ('phone', 'syllable'):
+                if unit == 'syllable' and sep[1] is None:
+                    continue
+                for tol in (False, True):
+                    gold = rng.random() < 0.5
+                    allow = rng.random() < 0.3
+                    argv = ['-q', '-u', unit] + (['-t'] if tol else []) + (['-P'] if allow else []) + separgs(sep) + (['-g', '@gold.txt'] if gold else []) + ['@in.txt']
+                    jobs.append(Job('prep', 'wordseg.prepare', argv, {'in.txt': fmt(lines)}, prep_expected(lines, sep, unit, tol, allow, gold),
+                                    outfiles=('gold.txt',) if gold else (), tag='prep/' + tg))
+            # ---- stats
+            for js in (False, True):
+                jobs.append(Job('stats', 'wordseg.statistics', ['-q'] + (['--json'] if js else []) + separgs(sep) + ['@in.txt'], {'in.txt': fmt(tags)},
+                                stats_expected(tags, sep, js), tag='stats/' + tg))
+            # ---- dibs: train file tagged with the custom separators
+            for unit in ('phone', 'syllable'):
+                if (unit == 'syllable' and sep[1] is None) or (unit == 'phone' and sep[0] is None):
+                    continue
+                test = [units_of(t, unit) for t in trees]
+                kind = rng.choice(['gold', 'phrasal', 'lexical'])
+                thr = rng.choice([0.0, 0.25, 0.5, 1.0])
+                jobs.append(Job('dibs', 'wordseg.algos.dibs', ['-q', '-t', kind, '-U', str(thr), '-u', unit] + separgs(sep) + ['-T', '@train.txt', '@in.txt'],
+                                {'in.txt': fmt(test), 'train.txt': fmt(tags)}, dibs_expected(tags, test, sep, unit, kind, thr, None, False), tag='dibs/' + tg))
+            # ---- baseline with an oracle text tagged with the custom separators
+            tu, _ = gens.random_text(rng, ['a', 'b', 'c'], nutts=rng.randint(1, 6))
+            plines = gens.lines(tu)
+            for level in ('phone', 'syllable'):
+                seed = rng.choice([0, rng.randint(1, 999)])
+
+                def fo(plines=plines, tags=tags, sep=sep, level=level, seed=seed):
+                    random.seed(seed)
+                    return fmt(baseline.segment_oracle(nl(plines), nl(tags), Separator(*sep), level))
+                jobs.append(Job('baseline', 'wordseg.algos.baseline', ['-q', '-r', str(seed), '-O', '@oracle.txt', '-l', level] + separgs(sep) + ['@in.txt'],
+                                {'in.txt': fmt(plines), 'oracle.txt': fmt(tags)}, expect(fo), tag='baseline-oracle/' + tg))
+        # ---- syll: phones and words tagged with custom separators, syllable separator given
+        ons, vow = ['b', 'd', 'k', 'br'], ['a', 'o']
+        for sep in [CSEP] + ([('p', 's', 'w'), ('·', '‖', '§§')] if ck.thorough else []):
+            words = [[rng.choice(ons) + rng.choice(vow) for _ in range(rng.randint(1, 3))] for _ in range(rng.randint(2, 5))]
+            utts = []
+            for _ in range(rng.randint(1, 4)):
+                ws = [rng.choice(words) for _ in range(rng.randint(1, 3))]
+                utts.append(''.join(''.join(ph + sep[0] for syl in w for ph in syl) + sep[2] for w in ws))
+            if rng.random() < 0.4:
+                utts.append('x' + sep[0] + sep[2])
+            for strip in (False, True):
+                tol = rng.random() < 0.5
+
+                def fy(utts=utts, strip=strip, tol=tol, sep=sep):
+                    return fmt(Syllabifier(list(ons), list(vow), separator=Separator(*sep)).syllabify(nl(utts), strip=strip, tolerant=tol))
+                jobs.append(Job('syll', 'wordseg.syllabification', ['-q'] + (['-S'] if strip else []) + (['-t'] if tol else []) + separgs(sep) + ['@in.txt', '@ons.txt', '@vow.txt'],
+                                {'in.txt': fmt(utts), 'ons.txt': fmt(ons), 'vow.txt': fmt(vow)}, expect(fy), tag='syll/sep' + repr(sep)))
+    return jobs
+
+
+def option_jobs(ck):
+    """options no other job passes: baseline -O/-l, dibs -u/-b/-d and no -T, syll -f, puddle -j, tp -p"""
+    rng = ck.rng
+    jobs = []
+    for rep in range(4 if ck.thorough else 1):
+        trees, tags = tagged_corpus(rng)
+        tu, _ = gens.random_text(rng, ['a', 'b', 'c'], nutts=rng.randint(2, 8))
+        plines = gens.lines(tu)
+        tr, _ = gens.random_text(rng, ['a', 'b', 'c'], nutts=rng.randint(1, 6))
+        tlines = gens.lines(tr)
+        # ---- baseline -O <oracle> -l phone|syllable (default separators, padded oracle)
+        for level in ('phone', 'syllable'):
+            seed = rng.randint(0, 999)
+
+            def fo(plines=plines, tags=tags, level=level, seed=seed):
+                random.seed(seed)
+                return fmt(baseline.segment_oracle(nl(plines), nl(tags), Separator(), level))
+            jobs.append(Job('baseline', 'wordseg.algos.baseline', ['-q', '-r', str(seed), '-O', '@oracle.txt', '-l', level, '@in.txt'],
+                            {'in.txt': fmt(plines), 'oracle.txt': fmt(tags)}, expect(fo), tag='baseline -O -l ' + level))
+        # the oracle file does not exist: main() raises ValueError itself
+        jobs.append(Job('baseline', 'wordseg.algos.baseline', ['-q', '-O', '@missing.txt', '@in.txt'], {'in.txt': fmt(plines)}, ('fatal', 'ValueError'), tag='baseline -O missing'))
+        # ---- dibs -u syllable / -b / -d with a train file
+        for unit in ('phone', 'syllable'):
+            test = [units_of(t, unit) for t in trees]
+            for kind in ('phrasal', 'lexical', 'gold'):
+                pwb = rng.choice([0.0, 0.1, 0.5, 1.0, 1.5])
+                thr = rng.choice([0.0, 0.25, 0.5, 1.0])
+                diph = rng.random() < 0.5
+                jobs.append(Job('dibs', 'wordseg.algos.dibs', ['-q', '-t', kind, '-U', str(thr), '-b', str(pwb), '-u', unit] + (['-d', '@diph.txt'] if diph else []) + ['-T', '@train.txt', '@in.txt'],
+                                {'in.txt': fmt(test), 'train.txt': fmt(tags)}, dibs_expected(tags, test, DEFSEP, unit, kind, thr, pwb, diph),
+                                outfiles=('diph.txt',) if diph else (), tag='dibs -b -u %s' % unit))
+        # ---- dibs without -T: the tagged input is the train text, and it is segmented once
+        # prepared (separators removed) at the level the model is trained on
+        for sep, unit in ((DEFSEP, 'phone'), (DEFSEP, 'syllable'), (CSEP, 'phone')):
+            src = tags if sep == DEFSEP else [sl.render(t, sep, 'compact') for t in trees]
+            kind = rng.choice(['phrasal', 'lexical', 'gold'])
+
+            def fn(src=src, sep=sep, unit=unit, kind=kind):
+                S = Separator(*sep)
+                m = dibs.CorpusSummary(nl(src), separator=S, level=unit)
+                return fmt(dibs.segment(list(prep_mod.prepare(nl(src), S, unit=unit)), m, type=kind))
+            jobs.append(Job('dibs', 'wordseg.algos.dibs', ['-q', '-t', kind, '-u', unit] + (separgs(sep) if sep != DEFSEP else []) + ['@in.txt'],
+                            {'in.txt': fmt(src)}, expect(fn), tag='dibs no -T, -u %s, %s separators' % (unit, 'default' if sep == DEFSEP else 'custom')))
+        # ---- syll -f
+        ons, vow = ['b', 'd', 'k', 'br'], ['a', 'o']
+        ws = [''.join(rng.choice(ons) + rng.choice(vow) for _ in range(rng.randint(1, 3))) for _ in range(3)] + [rng.choice(['b', 'd', 'k', 'b', 'bd'])]
+        rng.shuffle(ws)
+        utts = [' '.join(p for p in w) + ' ;eword' for w in ws] + [' '.join(ws[0]) + ' ;eword ' + ' '.join(ws[1]) + ' ;eword']
+        for fill in (True, False):
+            for tol in (False, True):
+                def fy(utts=utts, fill=fill, tol=tol):
+                    return fmt(Syllabifier(list(ons), list(vow), separator=Separator(), filling_vowel=fill).syllabify(nl(utts), tolerant=tol))
+                jobs.append(Job('syll', 'wordseg.syllabification', ['-q'] + (['-f'] if fill else []) + (['-t'] if tol else []) + ['@in.txt', '@ons.txt', '@vow.txt'],
+                                {'in.txt': fmt(utts), 'ons.txt': fmt(ons), 'vow.txt': fmt(vow)}, expect(fy), tag='syll -f' if fill else 'syll'))
+        # ---- puddle -j 2
+        nf = rng.randint(2, max(2, len(plines)))
+        w = rng.randint(1, 3)
+
+        def fp(plines=plines, nf=nf, w=w):
+            return fmt(puddle.segment((l + '\n' for l in plines), window=w, nfolds=nf, njobs=2))
+        jobs.append(Job('puddle', 'wordseg.algos.puddle', ['-q', '-w', str(w), '-f', str(nf), '-j', '2', '@in.txt'], {'in.txt': fmt(plines)}, expect(fp), tag='puddle -j 2'))
+        # -T with -j: main() raises ValueError itself
+        jobs.append(Job('puddle', 'wordseg.algos.puddle', ['-q', '-j', '2', '-T', '@train.txt', '@in.txt'], {'in.txt': fmt(plines), 'train.txt': fmt(tlines)},
+                        ('fatal', 'ValueError'), tag='puddle -j -T'))
+        # ---- tp -p forward|backward (deprecated spelling of -d ftp|btp), train file missing
+        for prob, dep in (('forward', 'ftp'), ('backward', 'btp')):
+            thr = rng.choice(['relative', 'absolute'])
+
+            def ft(plines=plines, thr=thr, dep=dep):
+                return fmt(tp.segment((l + '\n' for l in plines), threshold=thr, dependency=dep))
+            jobs.append(Job('tp', 'wordseg.algos.tp', ['-q', '-t', thr, '-p', prob, '@in.txt'], {'in.txt': fmt(plines)}, expect(ft), tag='tp -p'))
+        jobs.append(Job('tp', 'wordseg.algos.tp', ['-q', '-T', '@missing.txt', '@in.txt'], {'in.txt': fmt(plines)}, ('fatal', 'RuntimeError'), tag='tp -T missing'))
+    return jobs
+
+
+def stdio_jobs(ck, jobs):
+    """for every command, some of the runs again with the text on stdin and/or the result on stdout"""
+    rng = ck.rng
+    by = {}
+    for j in jobs:
+        if '@in.txt' in j.argv and not hasattr(j, 'check'):
+            by.setdefault(j.name, []).append(j)
+    res = []
+    for name in sorted(by):
+        cand = by[name]
+        modes = [(True, True), (True, False), (False, True)]
+        k = (6 if ck.thorough else 3) if name in ('prep', 'tp', 'baseline', 'eval') else (3 if ck.thorough else 1)
+        # runs whose function returns normally first (the result travels through stdout), then any
+        oks = [j for j in cand if j.expected and j.expected[0] == 'ok']
+        picked = [oks[i] for i in sorted(rng.sample(range(len(oks)), min(max(1, k - 1), len(oks))))]
+        others = [j for j in cand if j not in picked]
+        picked += [others[i] for i in sorted(rng.sample(range(len(others)), min(k - len(picked), len(others))))]
+        for i, j in enumerate(picked):
+            res.append(stdio_variant(j, *modes[i % 3]))
+    # a text that is not ASCII through the standard streams
+    trees = [sl.rand_tree(rng, sl.PHONES['ipa']) for _ in range(3)]
+    lines = [sl.render(t, DEFSEP, 'padded') for t in trees]
+    res.append(stdio_variant(Job('prep', 'wordseg.prepare', ['-q', '@in.txt'], {'in.txt': fmt(lines)}, prep_expected(lines, DEFSEP, 'phone', False, False, False), tag='prep/ipa')))
+    return res
+
+
+# --------------------------------------------------------------------------------------
+#  wordseg-ag against ag.segment on the program built from the tree
+# --------------------------------------------------------------------------------------
+
+def _in_env(env, f):
+    """f() with these environment variables; the log handlers the wrappers create write to a null stream"""
+    old = {k: os.environ.get(k) for k in env}
+    os.environ.update(env)
+    err = sys.stderr
+    sys.stderr = open(os.devnull, 'w')
+    try:
+        return f()
+    finally:
+        sys.stderr = err
+        for k, v in old.items():
+            if v is None:
+                os.environ.pop(k, None)
+            else:
+                os.environ[k] = v
+
+
+def ag_segment_jobs(ck, bindir):
+    """`python -m wordseg.algos.ag` on the real program against ag.segment called with the argument string
+    main() builds (AG_ARGUMENTS order, short names, -i -> -h): fixed seeds, one job: deterministic"""
+    rng = ck.rng
+    jobs = []
+    text = ['a b c a b', 'b a c', 'c a b a', 'a b', 'b a c a b']
+    train = ['a b a b c', 'c a b', 'b a c c a', 'a b a b']
+    cases = [
+        # (command line, argument string of ag.segment, keyword arguments, train file?, grammar saved?)
+        (['--nruns', '1', '-j', '1', '-r', '7', '-n', '10', '-x', '2'], '-d 100 -x 2 -n 10 -r 7', dict(nruns=1), False, False),
+        (['--nruns', '2', '-r', '11', '-n', '8', '-x', '2', '-E', '-P', '-a', '0.0001', '-b', '10000', '-e', '1', '-f', '1', '-g', '100', '-i', '0.01', '-R', '-1',
+          '--ignore-first-parses', '2'],
+         '-d 100 -x 2 -n 8 -E -P -R -1 -r 11 -a 0.0001 -b 10000.0 -e 1.0 -f 1.0 -g 100.0 -h 0.01', dict(nruns=2, ignore_first_parses=2), True, False),
+        (['--nruns', '1', '-r', '23', '-n', '6', '-x', '3', '--ignore-first-parses', '-1', '--save-grammar-to', '@g.lt'],
+         '-d 100 -x 3 -n 6 -r 23', dict(nruns=1, ignore_first_parses=-1), False, True),
+    ]
+    if ck.thorough:
+        for _ in range(4):
+            seed, n, x = rng.randint(1, 999), rng.randint(3, 12), rng.randint(1, 3)
+            cases.append((['--nruns', '2', '-r', str(seed), '-n', str(n), '-x', str(x), '-H', '-U', '2', '-t', '1', '-m', '3'],
+                          '-d 100 -x %d -n %d -H -r %d -T 2.0 -t 1.0 -m 3' % (x, n, seed), dict(nruns=2), rng.random() < 0.5, False))
+    for argv, argstr, kw, with_train, save in cases:
+        files = {'in.txt': fmt(text)}
+        if with_train:
+            files['train.txt'] = fmt(train)
+            argv = argv + ['-T', '@train.txt']
+
+        def f(argstr=argstr, kw=kw, with_train=with_train, save=save):
+            d = tempfile.mkdtemp(prefix='c17-ag-')
+            try:
+                k = dict(kw)
+                if save:
+                    k['save_grammar_to'] = os.path.join(d, 'g.lt')
+                out = fmt(ag.segment(nl(text), train_text=nl(train) if with_train else None, args=argstr, njobs=1, tempdir=d, **k))
+                return {'out': out, 'g.lt': open(os.path.join(d, 'g.lt'), encoding='utf8').read()} if save else out
+            finally:
+                shutil.rmtree(d, ignore_errors=True)
+        j = Job('ag', 'wordseg.algos.ag', ['-q'] + argv + ['@in.txt'], files, None, outfiles=('g.lt',) if save else (), env={'WORDSEG_VERIF_BINDIR': bindir}, tag='ag real')
+        j.deferred = lambda f=f: _in_env({'WORDSEG_VERIF_BINDIR': bindir}, f)
+        jobs.append(j)
+    return jobs
+
+
+# --------------------------------------------------------------------------------------
+#  wordseg-dpseg: what the program receives for every option of the table
+# --------------------------------------------------------------------------------------
+
+# option -> short name, kind, values (command line value -> value the program must receive). The spelling the
+# program expects is the one of desc.add_options() in dpseg/src/dpseg.cc: estimator V/F/T/D, ngram 1/2,
+# forget-method U/P, eval-maximize 0/1 (unsigned), do-mbdp bool.
+DP_TABLE = {
+    'debug-level': ('-d', 'uint', ['3', '0']),
+    'eval-file': ('-e', 'file', ['@eval.txt', '@my eval.txt']),
+    'eval-maximize': (None, 'flag', None),
+    'eval-interval': (None, 'uint', ['4', '0']),
+    'estimator': ('-E', 'map', {'viterbi': 'V', 'flip': 'F', 'tree': 'T', 'decayed-flip': 'D'}),
+    'decay-rate': ('-D', 'float', ['0.75', '0']),
+    'samples-per-utt': ('-S', 'uint', ['17', '0']),
+    'mode': ('-m', 'map', {'online': 'online', 'batch': 'batch'}),
+    'ngram': ('-n', 'map', {'unigram': '1', 'bigram': '2'}),
+    'do-mbdp': (None, 'flag', None),
+    'a1': (None, 'float', ['0.25', '0']),
+    'b1': (None, 'float', ['3.5', '0']),
+    'a2': (None, 'float', ['0.125', '0']),
+    'b2': (None, 'float', ['4.5', '0']),
+    'Pstop': ('-p', 'float', ['0.3', '0']),
+    'hypersamp-ratio': ('-H', 'float', ['0.2', '0']),
+    'nchartypes': (None, 'uint', ['31', '0']),
+    'aeos': (None, 'float', ['2.5', '0']),
+    'init-pboundary': ('-b', 'float', ['0.4', '0', '-1']),
+    'pya-beta-a': (None, 'float', ['1.5', '0']),
+    'pya-beta-b': (None, 'float', ['2.5', '0']),
+    'pya-gamma-s': (None, 'float', ['12', '0']),
+    'pya-gamma-c': (None, 'float', ['0.3', '0']),
+    'trace-every': (None, 'uint', ['6', '0']),
+    'nsubjects': ('-s', 'uint', ['2', '0']),
+    'forget-rate': ('-F', 'float', ['5', '0']),
+    'burnin-iterations': ('-i', 'uint', ['9', '0']),
+    'anneal-iterations': (None, 'uint', ['8', '0']),
+    'anneal-start-temperature': (None, 'float', ['3.5', '0']),
+    'anneal-stop-temperature': (None, 'float', ['1.5', '0']),
+    'anneal-a': (None, 'float', ['0.6', '0']),
+    'anneal-b': (None, 'float', ['0.7', '0']),
+    'result-field-separator': (None, 'str', [',', ';', '\t', ' ']),      # "\t" is the documented default
+    'forget-method': (None, 'map', {'proportional': 'P', 'uniformly': 'U'}),
+    'token-memory': ('-N', 'uint', ['21', '0']),
+    'type-memory': ('-L', 'uint', ['22', '0']),
+    'randseed': ('-r', 'uint', ['5', '0']),
+    'config-file': ('-c', 'file', ['@conf.txt']),
+}
+# options main() always sends because their argparse default is not None: harmless only when equal to the
+# default of the program itself
+DP_CPP_DEFAULTS = {'pya-beta-b': 1.0, 'pya-gamma-s': 10.0, 'pya-gamma-c': 0.1}
+
+
+def dpseg_option_jobs(ck, tables):
+    rng = ck.rng
+    jobs = []
+    text = fmt(['a b c a', 'b a c', 'c a b b', 'a b'])
+    files = {'in.txt': text, 'eval.txt': 'abc\n', 'my eval.txt': 'abc\n', 'conf.txt': 'a1 = 0.5\n'}
+    if tables:
+        py = set(n for n, _ in tables['dpseg_python']) - {'output-file'}
+        assert py == set(DP_TABLE), 'the option table of wordseg-dpseg changed: %s' % sorted(py ^ set(DP_TABLE))
+
+    def mk(given, nfolds, tag):
+        """given: {option: command line value | True (flag)}"""
+        argv, want = ['-q', '-f', str(nfolds)], {}
+        items = list(given.items())
+        rng.shuffle(items)
+        for opt, val in items:
+            short, kind, vals = DP_TABLE[opt]
+            spell = short if short and rng.random() < 0.5 else '--' + opt
+            if kind == 'flag':
+                argv.append(spell)
+                want[opt] = ('flag', None)
+            else:
+                argv += [spell, val]
+                want[opt] = (kind, vals[val] if kind == 'map' else val)
+        j = Job('dpseg-options', 'wordseg.algos.dpseg', argv + ['@in.txt'], files, None, capture=True, tag=tag)
+        j.dpcheck = (want, nfolds)
+        return j
+
+    def first(opt, zero=False):
+        short, kind, vals = DP_TABLE[opt]
+        if kind == 'flag':
+            return True
+        if kind == 'map':
+            return rng.choice(sorted(vals))
+        if zero:
+            return '0' if '0' in vals else None
+        return vals[0]
+    # every option at once, distinctive values
+    jobs.append(mk({o: first(o) for o in DP_TABLE}, 1, 'dpseg all options'))
+    # every option that has one at its zero value, the flags absent
+    z = {o: first(o, zero=True) for o in DP_TABLE if DP_TABLE[o][1] not in ('flag', 'map', 'file', 'str')}
+    jobs.append(mk({o: v for o, v in z.items() if v is not None}, 2, 'dpseg all options zero'))
+    # no option at all
+    jobs.append(mk({}, 1, 'dpseg no option'))
+    # each option alone (every value of the enumerated ones); a sample of them in the quick tier
+    singles = []
+    for o, (short, kind, vals) in DP_TABLE.items():
+        if kind == 'flag':
+            singles.append((o, True))
+        else:
+            singles += [(o, v) for v in (sorted(vals) if kind == 'map' else vals)]
+    if not ck.thorough:
+        must = [s for s in singles if s[0] in ('estimator', 'ngram', 'forget-method') or s in (('result-field-separator', '\t'), ('eval-file', '@my eval.txt'))]
+        rest = [s for s in singles if s not in must]
+        singles = must + [rest[i] for i in sorted(rng.sample(range(len(rest)), 8))]
+    for o, v in singles:
+        jobs.append(mk({o: v}, rng.choice([1, 2]), 'dpseg option ' + o + ('' if v is True else ' ' + repr(v))))
+    return jobs
+
+
+def parse_dpseg_argv(argv):
+    """--name value pairs as boost::program_options reads them; returns (dict name -> [values], problems)"""
+    got, bad = {}, []
+    i = 0
+    while i < len(argv):
+        a = argv[i]
+        if not a.startswith('--'):
+            bad.append('stray token %r' % a)
+            i += 1
+            continue
+        if i + 1 >= len(argv) or argv[i + 1].startswith('--'):
+            bad.append('option %s without value' % a)
+            i += 1
+            continue
+        got.setdefault(a[2:], []).append(argv[i + 1])
+        i += 2
+    return got, bad
+
+
+def judge_dpopts(job, res, tables):
+    want, nfolds = job.dpcheck
+    if res['code'] != 0:
+        return 'wordseg-dpseg failed with status %d: %s' % (res['code'], res['err'][-300:])
+    if not res.get('argvs'):
+        return 'the program was never called'
+    cpp = dict(tables['dpseg_cpp']) if tables else None
+    for argv in res['argvs']:
+        got, bad = parse_dpseg_argv(argv)
+        if bad:
+            return 'the program received %r: %s' % (argv, '; '.join(bad))
+        if 'output-file' not in got:
+            return 'no --output-file in %r' % (argv,)
+        for name, vals in got.items():
+            if len(vals) != 1:
+                return 'option --%s received %d times: %r' % (name, len(vals), vals)
+            v = vals[0]
+            if cpp is not None:
+                if name not in cpp:
+                    return 'the program has no option --%s (received %r)' % (name, argv)
+                k = cpp[name]
+                if (k == 'uint' and not re.fullmatch(r'\d+', v)) or (k == 'float' and not re.fullmatch(r'-?(\d+\.?\d*|\.\d+)([eE][-+]?\d+)?', v)) \
+                        or (k == 'bool' and v.lower() not in ('1', '0', 'true', 'false', 'on', 'off', 'yes', 'no')):
+                    return 'option --%s received the value %r which the program cannot read as %s' % (name, v, k)
+            if name == 'output-file' or name in want:
+                continue
+            if name in ('eval-maximize', 'do-mbdp') and v.lower() in ('0', 'false'):
+                continue
+            if name in DP_CPP_DEFAULTS and float(v) == DP_CPP_DEFAULTS[name]:
+                continue
+            return 'option --%s %s reached the program although it was not given' % (name, v)
+        for name, (kind, val) in want.items():
+            if name not in got:
+                return 'option --%s %s given on the command line did not reach the program (received %r)' % (name, '' if val is None else val, argv[2:])
+            v = got[name][0]
+            if kind == 'flag':
+                ok = v.lower() in ('1', 'true')
+            elif kind in ('uint', 'float'):
+                try:
+                    ok = float(v) == float(val)
+                except ValueError:
+                    ok = False
+            elif kind == 'file':
+                ok = v == val.replace('@', res['dir'] + '/')
+            else:
+                ok = v == val
+            if not ok:
+                return 'option --%s %s reached the program as %r' % (name, '' if val is None else val, v)
+    return None
+
+
+# --------------------------------------------------------------------------------------
+#  failures of the ag / dpseg programs under the commands (stand-ins with a scripted fate)
+# --------------------------------------------------------------------------------------
+
+def failure_jobs(ck):
+    rng = ck.rng
+    jobs = []
+    text = ['a b c a b', 'b a c', 'c a b a', 'a b']
+
+    def plan_setup(var, plan):
+        def setup(d):
+            p = dict(plan)
+            if 'by_call' in p:
+                p['counter'] = os.path.join(d, 'counter')
+            pf = os.path.join(d, 'plan.json')
+            json.dump(p, open(pf, 'w'))
+            return {var: pf}
+        return setup
+
+    def in_process(setup, f):
+        def g():
+            d = tempfile.mkdtemp(prefix='c17-plan-')
+            try:
+                return _in_env(setup(d) if setup else {}, lambda: f(d))
+            finally:
+                shutil.rmtree(d, ignore_errors=True)
+        return g
+    # ---- wordseg-ag
+    seed = rng.randint(1, 99)
+    ag_cases = [
+        ('ag exit status', {'default': {'how': ['exit', 3]}}, 1, {}),
+        ('ag killed', {'by_seed': {str(seed + 1): {'how': ['signal', 9]}}}, 2, {}),
+        ('ag fails after a complete output', {'by_seed': {str(seed): {'how': ['exit', 1]}}}, 2, {}),
+        ('ag truncated output, status 0', {'by_seed': {str(seed): {'complete': 1, 'partial': 1}}}, 1, {}),
+        ('ag no failure', {}, 2, {}),
+        ('ag unknown category', {}, 1, {'category': 'Nope'}),
+        ('ag too many parses ignored', {}, 1, {'ignore_first_parses': 50}),
+        ('ag missing grammar', {}, 1, {'grammar_file': '@missing.lt'}),
+    ]
+    for tag, plan, nruns, kw in ag_cases:
+        setup = plan_setup('AG_STUB_PLAN', plan)
+        argv = ['-q', '--nruns', str(nruns), '-r', str(seed), '-n', '4', '-x', '2']
+        for k, v in kw.items():
+            argv += ['--' + {'category': 'category', 'ignore_first_parses': 'ignore-first-parses', 'grammar_file': 'grammar'}[k], str(v)]
+
+        def f(d, nruns=nruns, kw=kw):
+            k = {a: (b.replace('@', d + '/') if isinstance(b, str) else b) for a, b in kw.items()}
+            return fmt(ag.segment(nl(text), args='-d 100 -x 2 -n 4 -r %d' % seed, nruns=nruns, njobs=1, tempdir=d, **k))
+        j = Job('ag', 'wordseg.algos.ag', argv + ['@in.txt'], {'in.txt': fmt(text)}, None, setup=setup, tag=tag)
+        j.deferred = in_process(setup, f)
+        jobs.append(j)
+    jobs.append(Job('ag', 'wordseg.algos.ag', ['-q', '--nruns', '1', '-n', '4', '-T', '@missing.txt', '@in.txt'], {'in.txt': fmt(text)}, ('fatal', 'ValueError'), tag='ag -T missing'))
+    # ---- wordseg-dpseg
+    dp_cases = [
+        ('dpseg exit status', {'default': {'how': ['exit', 2]}}, 1, text),
+        ('dpseg killed', {'default': {'how': ['signal', 11]}}, 2, text),
+        ('dpseg second fold fails', {'by_call': [{}, {'how': ['exit', 4]}]}, 2, text),
+        ('dpseg fails after writing everything', {'default': {'how': ['exit', 1], 'written': None}}, 1, text),
+        ('dpseg no failure', {}, 2, text),
+        ('dpseg first line of one symbol', {}, 1, ['a', 'a b', 'b a']),
+    ]
+    for tag, plan, nfolds, txt in dp_cases:
+        setup = plan_setup('DPSEG_STUB_PLAN', plan)
+
+        def f(d, nfolds=nfolds, txt=txt):
+            return fmt(dpseg.segment(nl(txt), nfolds=nfolds, njobs=1, args='--randseed 4 --pya-beta-b 1.0 --pya-gamma-s 10.0 --pya-gamma-c 0.1'))
+        j = Job('dpseg', 'wordseg.algos.dpseg', ['-q', '-f', str(nfolds), '-r', '4', '@in.txt'], {'in.txt': fmt(txt)}, None, setup=setup, tag=tag)
+        j.deferred = in_process(setup, f)
+        jobs.append(j)
+    return jobs
+
+
 def ag_echo_jobs(ck, bindir):
     """every algorithm option of wordseg-ag set to a distinctive value and read back from the program's parameter echo"""
     rows = []
@@ -241,8 +835,22 @@ def ag_echo_jobs(ck, bindir):
     if not ck.thorough:
         keep = {'--skip-hastings', '--ordered-parse', '--pyb-gamma-c', '--tstart', '--eval-every', '--pya', '--dirichlet-prior', '--ziterations'}
         items = [it for it in items if it[0] in keep]
+    # zero is a value like any other: it must reach the program too (pya = 0 is the Dirichlet process,
+    # seed 0 a fixed seed), not be replaced by the program's default
+    zeros = [('--pya', ('a', '0')), ('--randseed', ('r', '0')), ('--ziterations', ('z', '0')), ('--pya-beta-a', ('e', '0'))]
+    if ck.thorough:
+        zeros += [('--pya-beta-b', ('f', '0')), ('--pyb-gamma-s', ('g', '0')), ('--pyb-gamma-c', ('h', '0')), ('--resample-pycache-niter', ('R', '0'))]
+    items = items + zeros
+    # a file-valued option: the program must write that file (also when its name holds a space)
+    items = items + [('--print-grammar-file', ('FILE', 'grammar.out')), ('--print-grammar-file', ('FILE', 'grammar out.txt'))]
     for opt, (key, val) in items:
         argv = ['-vv', '--nruns', '1', '-d', '100', '-n', '4', '-x', '2']
+        if key == 'FILE':
+            j = Job('ag-echo', 'wordseg.algos.ag', argv + [opt, '@' + val, '@in.txt'], {'in.txt': text}, None, outfiles=(val,), env={'WORDSEG_VERIF_BINDIR': bindir},
+                    tag='ag-echo %s %r' % (opt, val))
+            j.check = (opt, key, val)
+            jobs.append(j)
+            continue
         if opt in values:
             argv = [a for a in argv]
             if opt == '--niterations':
@@ -254,7 +862,7 @@ def ag_echo_jobs(ck, bindir):
             # a flag followed by another flag: neither may swallow the other
             argv += [opt, '--dirichlet-prior'] if opt != '--dirichlet-prior' else [opt]
         argv += ['@in.txt']
-        j = Job('ag-echo', 'wordseg.algos.ag', argv, {'in.txt': text}, None, env={'WORDSEG_VERIF_BINDIR': bindir})
+        j = Job('ag-echo', 'wordseg.algos.ag', argv, {'in.txt': text}, None, env={'WORDSEG_VERIF_BINDIR': bindir}, tag='ag-echo ' + opt + ' ' + str(val))
         j.check = (opt, key, val)
         jobs.append(j)
     return jobs
@@ -264,13 +872,20 @@ def judge_echo(job, res):
     opt, key, val = job.check
     if res['code'] != 0:
         return 'wordseg-ag %s failed with status %d: %s' % (opt, res['code'], res['err'][-300:])
+    if key == 'FILE':
+        if not res['extra'].get(val):
+            return 'option %s %r: the program did not write that file' % (opt, val)
+        return None
     m = re.search(r'D = .*', res['err'])
     if not m:
         return 'no parameter echo in the output of wordseg-ag -vv'
     echo = dict(re.findall(r'(\w) = ([^,\s]+)', m.group(0)))
     if key is not None:
         got = echo.get(key)
-        if got is None or float(got) != float(val):
+        # main.cc keeps both annealing temperatures as inverses (1.0/atof(optarg)); its echo prints
+        # "T = 1.0/anneal_start" (the temperature given) but "t = anneal_stop" (the inverse of the one given)
+        want = 1.0 / float(val) if key == 't' else float(val)
+        if got is None or abs(float(got) - want) > 1e-9 * max(1.0, abs(want)):
             return 'option %s %s reached the program as %s = %s' % (opt, val, key, got)
     if opt != '--dirichlet-prior' and opt not in ('--eval-every', '--niterations') and not any(opt == o for o in ()):
         if '--dirichlet-prior' in job.argv and echo.get('E') != '1':
@@ -294,40 +909,58 @@ def main():
     failures = ck.prove(gen=['gen/Options.v'] if tables else []) + tr_fail
     if tables:
         ck.cov['option_tables'] = {k: len(v) for k, v in tables.items()}
-    jobs = build_jobs(ck)
-    for j in jobs:
-        if j.expected is None and hasattr(j, 'deferred'):
-            j.expected = expect(j.deferred)
+    jobs = build_jobs(ck) + sep_jobs(ck) + option_jobs(ck) + failure_jobs(ck)
     echo = []
     try:
         import agbuild
         bindir = agbuild.build()
         echo = ag_echo_jobs(ck, bindir)
+        jobs += ag_segment_jobs(ck, bindir)
     except Exception as e:  # noqa
         ck.cov['ag_note'] = 'ag not built: ' + str(e)[-200:]
+    for j in jobs:
+        if j.expected is None and hasattr(j, 'deferred'):
+            j.expected = expect(j.deferred)
+    jobs += stdio_jobs(ck, jobs)
+    dpo = dpseg_option_jobs(ck, tables)
+    allj = jobs + echo + dpo
     with ThreadPoolExecutor(max_workers=16) as ex:
-        results = list(ex.map(lambda j: j.run(), jobs + echo))
+        results = list(ex.map(lambda j: j.run(), allj))
     bad = []
-    for j, r in zip(jobs + echo, results):
-        why = judge_echo(j, r) if hasattr(j, 'check') else judge(j, r)
-        desc = {'command': j.name, 'argv': j.argv, 'files': {k: v[:300] for k, v in j.files.items()}}
+    for j, r in zip(allj, results):
+        why = judge_echo(j, r) if hasattr(j, 'check') else judge_dpopts(j, r, tables) if hasattr(j, 'dpcheck') else judge(j, r)
+        desc = {'command': j.name, 'what': j.tag, 'argv': j.argv, 'stdin': j.stdin, 'stdout': j.stdout, 'files': {k: v[:300] for k, v in j.files.items()}}
         ck.case(json.dumps(desc, sort_keys=True), True, sample={'command': j.name, 'argv': j.argv, 'expected': repr(j.expected)[:120], 'status': r['code']})
         ck.count('command:' + j.name)
-        ck.count('expected:' + (j.expected[0] if j.expected else 'echo'))
+        ck.count('expected:' + (j.expected[0] if j.expected else 'echo' if hasattr(j, 'check') else 'argv'))
+        ck.count('io:' + ('stdin' if j.stdin else 'file') + '->' + ('stdout' if j.stdout else 'file'))
+        if any(a in ('-p', '-s', '-w') for a in j.argv) and j.name in ('prep', 'stats', 'syll', 'dibs', 'baseline'):
+            ck.count('separators on the command line')
         if why:
-            bad.append((desc, r, why))
-    for desc, r, why in bad[:3]:
-        ck.violation({'site': 'python -m ' + desc['command'], 'input': desc, 'status': r['code'], 'stderr': r['err'][-400:], 'stdout_file': (r['out'] or '')[:400]},
-                     'property fails on the implementation: ' + why)
+            bad.append((desc, j, r, why))
+    # one witness for every kind of failing run
+    seen = set()
+    for desc, j, r, why in bad:
+        kind = re.sub(r"sep\(.*\)", 'sep', j.tag)
+        if kind in seen or len(seen) >= 12:
+            continue
+        seen.add(kind)
+        ck.violation({'site': 'python -m ' + j.module, 'input': desc, 'expected': repr(j.expected)[:400], 'status': r['code'], 'stderr': r['err'][-400:],
+                      'result': (r['out'] or '')[:400], 'received': r.get('argvs')},
+                     'property fails on the implementation (%s): %s' % (j.tag, why))
+    ck.cov['failing_runs'] = len(bad)
     if not bad:
         finish_proof_failures(ck, failures)
     else:
         ck.cov['failed_obligations'] = failures
     return ck.finish(
-        rule='%d command runs: prep, eval (with -r/-s), stats (raw/JSON), syll (strip x tolerant), baseline (seed, probability incl. invalid), tp (2 thresholds, train file, tiny corpora), '
-             'puddle (window, folds incl. too many, train file + by_frequency), dibs (3 types, thresholds incl. invalid), dpseg on the stand-in, each compared byte for byte with the formatted '
-             'result of the Python function called in-process (exit status and one-line fatal error on ValueError/RuntimeError); %d wordseg-ag runs on the program built from the tree reading '
-             'each option back from its parameter echo. Non-trivial: every run.' % (len(jobs), len(echo)),
+        rule='%d command runs: prep, eval (with -r/-s), stats (raw/JSON), syll (strip x tolerant x filling vowel), baseline (seed, probability incl. invalid, oracle file x level), '
+             'tp (2 thresholds, train file, tiny corpora, deprecated -p), puddle (window, folds incl. too many, njobs, train file + by_frequency), dibs (3 types, thresholds and pwb incl. invalid, '
+             'unit, diphone file, with and without train file), each with default and custom separator triples (-p/-s/-w, syllable or phone level undefined) where the command has them, '
+             'with the text as file or on stdin and the result in a file or on stdout, dpseg and ag on the stand-ins (incl. scripted failures of the programs), ag on the program built from the tree '
+             'against ag.segment (fixed seeds), each compared byte for byte with the formatted result of the Python function called in-process (exit status and one-line fatal error on '
+             'ValueError/RuntimeError); %d wordseg-ag runs on the built program reading each option (incl. zero values) back from its parameter echo; %d wordseg-dpseg runs on the stand-in '
+             'comparing the received argument vector with the option given (all options at once, all at zero, each alone). Non-trivial: every run.' % (len(jobs), len(echo), len(dpo)),
         assumptions=['argparse, the stream set-up and the formatting code are compared, not modelled in Coq; exceptions other than ValueError/RuntimeError are outside the property\'s statement'])
 
 
